@@ -138,24 +138,78 @@ def minute_rows(ix, cfgk, dt):
     return rows
 
 
-def build_request(tr, ix):
-    """-> (line, the input items that went in) or (None, reason)"""
+STOCK_APIS = ("order_shares", "order_lots", "order_value", "order_percent", "order_target_value", "order_target_percent", "order", "order_to")
+FUT_APIS = ("buy_open", "sell_open", "buy_close", "sell_close")
+
+
+def api_calls(tr, ix):
+    """the strategy's calls that the API-level world sizes itself: start index in the input list -> call"""
+    out = {}
+    inputs = tr.rec.inputs
+    for c in tr.calls:
+        if "in_range" not in c or c.get("exc") is not None or c.get("from_trade_handler"):
+            continue
+        a, b = c["in_range"]
+        api, args = c["api"], c["args"]
+        if api in STOCK_APIS and len(args) == 3 and args[0] in ix.stock:
+            pass
+        elif api in FUT_APIS and len(args) == 4 and args[0] in ix.fut:
+            pass
+        else:
+            continue
+        rng = inputs[a:b]
+        if any(it["k"] != "O" or it.get("depth") or (it.get("passed") and not it.get("submitted")) for it in rng):
+            continue
+        if any(it["order"]["book"] != args[0] for it in rng):
+            continue
+        if args[1] != args[1] or (args[2] is not None and args[2] != args[2]):
+            continue
+        out.setdefault(a, []).append(c)
+    return out
+
+
+def api_toks(ix, c, ids):
+    api, args = c["api"], c["args"]
+    lim = args[2]
+    tail = [str(int(lim is not None)), f2b(lim if lim is not None else 0.0), str(len(ids))] + [str(i) for i in ids]
+    if api in STOCK_APIS:
+        return ["K", api, str(ix.ids[args[0]]), f2b(float(args[1]))] + tail
+    eff = "OPEN" if api.endswith("open") else ("CLOSE_TODAY" if args[3] else "CLOSE")
+    return ["KF", str(ix.ids[args[0]]), f2b(float(args[1])), str(int(api.startswith("buy"))), eff] + tail
+
+
+def build_request(tr, ix, api_level=False):
+    """-> (line, the input items that went in) or (None, reason).  With `api_level` the calls of the order-sizing APIs are handed over as
+    the calls themselves (the model sizes them on its own state); otherwise as the orders they created."""
     cfgk = tr.cfg
     inputs = tr.rec.inputs
+    calls_at = api_calls(tr, ix) if api_level else {}
     first = inputs[0]
     accts = first["pf_pre"]["accounts"]
     if any(acct_sync.nan_in(a) for _, a in accts):
         return None, "nan_in_start_state"
     types = [t for t, _ in accts]
-    t = ["WRUN"] + cfg_toks(ix, cfgk) + [str(len(accts))]
+    t = ["WRUN2" if api_level else "WRUN"] + cfg_toks(ix, cfgk) + [str(len(accts))]
     for _, a in accts:
         if any(h["id"] not in ix.ids for h in a["holdings"]):
             return None, "unknown_instrument_in_start_state"
         t += acct_sync.ser_acct(ix, a)
     t += [f2b(first["pf_pre"]["units"]), f2b(first["pf_pre"]["static"]),
           str(types.index("STOCK")) if "STOCK" in types else "-", str(types.index("FUTURE")) if "FUTURE" in types else "-"]
+    if api_level:
+        ksh = [ix.ids[s["id"]] for s in ix.S["stocks"] if s["board"] == "KSH"]
+        t += [str(int(bool(cfgk["accounts_mod"].get("auto_switch_order_value")))), str(len(ksh))] + [str(x) for x in ksh]
     items, body = [], []
-    for it in inputs:
+    skip_until = 0
+    for idx, it in enumerate(list(inputs) + [None]):
+        for c in calls_at.get(idx, []):
+            a, b = c["in_range"]
+            body += api_toks(ix, c, [x["order"]["id"] for x in inputs[a:b]])
+            items.append({"k": "K", "api": c["api"], "args": c["args"], "today": None,
+                          "snap": {"accounts": c["after"], "pf": c["pf_after"], "open": c["open_after"]} if not c.get("_nested_calls") else None})
+            skip_until = max(skip_until, b)
+        if it is None or idx < skip_until:
+            continue
         k = it["k"]
         if k == "P":
             body += ["P"] + day_toks(ix, cfgk, it["today"])
@@ -217,7 +271,7 @@ def impl_events(tr):
 
 
 def run_sync(ctx, corrs, tr, ix):
-    """corrs: dict with 'state', 'orders', 'events' -> Corr"""
+    """corrs: dict from make_corrs.  Two levels: the strategy's calls as the orders they created, and as the API calls themselves."""
     why = supported(tr)
     if why is not None:
         ctx.stats["world_skipped:" + why] += 1
@@ -225,10 +279,21 @@ def run_sync(ctx, corrs, tr, ix):
     if tr.exc is not None:
         ctx.stats["world_skipped:run_ended_by_exception"] += 1
         return
-    line, items = build_request(tr, ix)
+    run_level(ctx, corrs, tr, ix, False)
+    if any("in_range" in c for c in tr.calls):
+        run_level(ctx, {k[:-4]: v for k, v in corrs.items() if k.endswith("_api")}, tr, ix, True)
+
+
+def run_level(ctx, corrs, tr, ix, api_level):
+    line, items = build_request(tr, ix, api_level)
     if line is None:
         ctx.stats["world_skipped:" + items] += 1
         return
+    if api_level:
+        ctx.stats["world_api_calls_sized_by_the_model"] += len([1 for it in items if it["k"] == "K"])
+        for it in items:
+            if it["k"] == "K":
+                ctx.nontrivial("world_api", it["api"], it["args"][2] is not None)
     if not ctx.driver_ok:
         return
     rep = vlib.ask_driver([line])[0]
@@ -238,7 +303,7 @@ def run_sync(ctx, corrs, tr, ix):
     tail_log = segs.pop()
     tail_orders = segs.pop()
     assert len(segs) == len(items), (len(segs), len(items))
-    ctx.stats["world_runs"] += 1
+    ctx.stats["world_runs" + ("_api_level" if api_level else "")] += 1
     ctx.stats["world_inputs"] += len(items)
     ctx.stats["world_account_operations_of_the_model"] += int(tail_log.split()[1])
     types = [t for t, _ in items[0]["pf_pre"]["accounts"]]
@@ -318,4 +383,9 @@ def make_corrs(ctx):
     return {"state": ctx.corr("World: state after every input", "whole runs replayed by the FREE-RUNNING composed model from the starting portfolio, the day's market tables and the strategy's calls: "
                               "every account (all ledger fields and observers), portfolio units and the open-order list after each input"),
             "events": ctx.corr("World: published order events", "sequence of ORDER_* and TRADE events (order, quantity, price, fee) of the whole run"),
-            "orders": ctx.corr("World: final order states", "status, filled quantity, average price and cost of every order the broker accepted")}
+            "orders": ctx.corr("World: final order states", "status, filled quantity, average price and cost of every order the broker accepted"),
+            "state_api": ctx.corr("World (API level): state after every input", "the same whole runs with the calls of the order-sizing APIs handed to the model AS CALLS (order_shares / order_lots / "
+                                  "order_value / order_percent / order_target_value / order_target_percent / order / order_to on stocks, buy/sell open/close on futures): the model sizes each call on its own "
+                                  "state (holding, closable, cash, total value, last price) and submits what it created; compared as above"),
+            "events_api": ctx.corr("World (API level): published order events", "sequence of ORDER_* and TRADE events of the whole run"),
+            "orders_api": ctx.corr("World (API level): final order states", "every order the model's sizing created and its broker accepted, against the implementation's")}
